@@ -1,6 +1,6 @@
 """C10 (discovered dependencies are inputs, scan side): DependencyScan::RecomputeNodeDirty (props/scanunit.py)."""
 from engine.selftest import subst
-from props import scanjobs, builderjobs
+from props import scanjobs, builderjobs, outdirtyjobs
 
 ID = "C10"
 USES_CPP = True
@@ -23,7 +23,7 @@ MANIFEST = {
 
 
 def jobs(tier, mutant=None):
-    return scanjobs.select(tier, ["S1"], r'\bC10\b', mutant) + builderjobs.select(tier, ["B4", "B2"], r'\bC10\b', mutant)
+    return scanjobs.select(tier, ["S1"], r'\bC10\b', mutant) + builderjobs.select(tier, ["B4", "B2"], r'\bC10\b', mutant) + outdirtyjobs.select(tier, ["O1"], r'\bC10\b', mutant)
 
 
 def _m(target, old, new):
